@@ -120,6 +120,9 @@ class ElemEval:
             return self.at(pos[0], tuple(reversed(ix)))
         if name == 'outer' and len(ix) == 2:
             return self.at(pos[0], (ix[0],)) * self.at(pos[1], (ix[1],))
+        if name in ('add_outer', 'sub_outer') and len(ix) == 2:
+            a_, b_ = self.at(pos[0], (ix[0],)), self.at(pos[1], (ix[1],))
+            return a_ + b_ if name == 'add_outer' else a_ - b_
         if name == 'arange' and len(pos) == 1 and len(ix) == 1:
             return ix[0]
         if name == 'fft.fftfreq' and len(ix) == 1:
